@@ -63,8 +63,8 @@ PROPS = {
     },
     'C03': {
         'crate': 'biscuit-auth',
-        'quick': [r'c03_trust_\w+', r'c03_load_\w+'],
-        'thorough': [],
+        'quick': [r'c03_trust_(scopes[0-3]|default)', r'c03_load_\w+'],
+        'thorough': [r'c03_trust_scopes4'],
         'per_harness': {r'c03_load_\w+': {'unwindset': 'memcmp.0:40'}},
         'cap': {'quick': 400, 'thorough': 1200},
         'functions': ['datalog::origin::TrustedOrigins::{default,from_scopes,contains}', 'datalog::origin::Origin::{insert,is_superset}', 'token::builder::authorizer::load_and_translate_block (block-level scopes)', 'token::builder::Scope::{convert,convert_from}', 'token::public_keys::PublicKeys::{insert,get_key}'],
